@@ -25,7 +25,12 @@ def run_worker(jobs, seed):
     env = dict(os.environ)
     env["PYTHONHASHSEED"] = str(seed)
     env["LOGLEVEL"] = "ERROR"
-    p = subprocess.Popen(["/venv/bin/python", WORKER], stdin=subprocess.PIPE, stdout=subprocess.PIPE, stderr=subprocess.PIPE, env=env)
+    # stderr goes to a temporary file, not a pipe: the workers of all seeds run concurrently and are read one after the
+    # other, so a worker that fills a stderr pipe (warnings of the annotated files) would block for ever
+    import tempfile
+    errf = tempfile.TemporaryFile()
+    p = subprocess.Popen(["/venv/bin/python", WORKER], stdin=subprocess.PIPE, stdout=subprocess.PIPE, stderr=errf, env=env)
+    p.errfile = errf
     return p
 
 
@@ -103,8 +108,10 @@ def run(ctx):
     results = {}
     for i, (s, p) in enumerate(procs):
         out = p.stdout.read()
-        err = p.stderr.read()
         p.wait()
+        p.errfile.seek(0)
+        err = p.errfile.read()
+        p.errfile.close()
         if p.returncode != 0:
             raise RuntimeError("det_worker failed under seed %s: %s" % (s, err.decode()[-500:]))
         results[(i, s)] = json.loads(out)
